@@ -47,7 +47,7 @@ def shards(tier, seed):
             for b in ("J", "B"):
                 out.append({"name": f"{'+'.join(kinds)}-{b}", "build": b,
                             "params": {"kinds": kinds, "combos": cs,
-                                       "cases": 12 if b == "J" else 6, "G": 4}})
+                                       "cases": 30 if b == "J" else 12, "G": 4}})
     else:
         for gi, kinds in enumerate(GROUPS):
             for ci in range(0, len(cs), 2):
